@@ -38,6 +38,7 @@ import (
 const prop = "C13"
 
 func TestMain(m *testing.M) {
+	evid.QuietStderr()
 	vmodel.CallTimeout = 15 * time.Minute                                     // the vwatch watchdog (with its parked-goroutine analysis) fires first
 	vcompose.LeafTypes = []string{"verif", "verif", "diskpacked", "filesvfs"} // fault-injectable leaves (diskpacked: its index is a harness KV)
 	evid.Main(m, prop, "fault_enumeration",
@@ -450,8 +451,11 @@ func run(cd *caseDef, faults []fault, recoverAfter bool) (res result) {
 			var m *vmodel.Mismatch
 			if errors.As(mm, &m) {
 				tolerable := hit && !healthy && strings.HasSuffix(m.Kind, "-error")
-				// a read that reports "not found"/fails because the lower layer failed is an error result of the affected call
-				if hit && !healthy && (m.Kind == "fetch-missing" || m.Kind == "stat-missing" || m.Kind == "enum-missing") {
+				// a Fetch that says "not found" because the lower layer failed is an error result of the affected
+				// call. A stat or an enumeration that RETURNS NIL must be right, though: a present blob missing
+				// from it is a silently truncated answer (what an HTTP client sees when a handler turns a
+				// mid-stream failure into well-formed JSON), not a failed call.
+				if hit && !healthy && m.Kind == "fetch-missing" {
 					tolerable = true
 				}
 				if tolerable {
@@ -632,7 +636,10 @@ func packableFile(seed uint64, size int) ([]vgen.Blob, error) {
 func genCase(t *rapid.T) *caseDef {
 	root := ""
 	if rapid.IntRange(0, 9).Draw(t, "forceRoot") < 7 {
-		root = rapid.SampledFrom([]string{"filesvfs", "diskpacked", "blobpacked", "encrypt", "replica", "shard", "cond", "overlay", "namespace", "proxycache", "verif", "union"}).Draw(t, "root")
+		root = rapid.SampledFrom([]string{"filesvfs", "diskpacked", "blobpacked", "encrypt", "replica", "shard", "cond", "overlay", "namespace", "proxycache", "verif", "union", "http", "http"}).Draw(t, "root")
+	}
+	if v := os.Getenv("VERIF_C13_ROOT"); v != "" {
+		root = v
 	}
 	tree := vcompose.GenTree(t, 3, root)
 	pool := vgen.GenPool(t, 4, 10, false)
@@ -731,10 +738,16 @@ func TestSingleFaults(t *testing.T) {
 		}
 
 		var ks []int
-		if evid.Thorough() {
-			for k := 0; k < n && k < 400; k++ {
+		if evid.Thorough() && n <= 160 {
+			for k := 0; k < n; k++ {
 				ks = append(ks, k)
 			}
+			evid.R.Label("single/every-address-of-the-history")
+		} else if evid.Thorough() {
+			// a long history (a packed file, a hundred tiny blobs): 160 drawn addresses
+			ks = rapid.SliceOfNDistinct(rapid.IntRange(0, n-1), 160, 160, rapid.ID[int]).Draw(t, "ks")
+			sort.Ints(ks)
+			evid.R.Label("single/160-drawn-addresses-of-a-long-history")
 		} else {
 			// stratified: one drawn address per kind of lower-layer operation (receive, remove, stat, get,
 			// set, commit, enumerate, fs calls ...), so that rare kinds (the removes of a shard, the index
@@ -829,7 +842,7 @@ func TestSingleFaults(t *testing.T) {
 			}
 		}
 		if evid.Thorough() {
-			evid.R.Exhaustive("every single fault position k (both fault kinds) of each generated history (up to 400 lower-layer calls)")
+			evid.R.Exhaustive("every single fault position k (both fault kinds) of each generated history of up to 160 lower-layer calls; 160 drawn positions of longer histories")
 		}
 	})
 }
